@@ -27,6 +27,7 @@ import (
 	"fmt"
 	"sort"
 	"strings"
+	"time"
 
 	"diagonal.works/b6"
 	"diagonal.works/b6/encoding"
@@ -57,7 +58,7 @@ func (s *space) Run(i int64) kit.Result {
 	for k := range s.secs {
 		if i < s.secs[k].n {
 			s.secs[k].run(i, &r)
-			if r.Outcome == "" && r.Outcomes == nil {
+			if r.Outcome == "" {
 				r.Outcome = s.secs[k].name
 			}
 			return r
@@ -167,6 +168,17 @@ func zigzag64Sections(tier string) []section {
 
 func specZigzag32(n uint32) int32 { return int32(n>>1) ^ -int32(n&1) } // vector-tile-spec 4.3.2
 
+// unusedDecoderWrong is flushed into a counter at the end of each zigzag32 case.
+var unusedDecoderWrong int64
+
+func flushZZ32(r *kit.Result) {
+	if unusedDecoderWrong > 0 {
+		r.Count("renderer-zigzag32.unused-decoder-wrong(|v|>=2^30)", unusedDecoderWrong)
+		r.AddOutcome("renderer-zigzag32:unused-decoder-wrong(|v|>=2^30, outside domain)")
+	}
+	unusedDecoderWrong = 0
+}
+
 func zz32(r *kit.Result, v int32) {
 	u := renderer.VerifC10ZigzagEncode(int(v))
 	if y := renderer.VerifC10ZigzagDecode(u); y != int(v) {
@@ -175,7 +187,7 @@ func zz32(r *kit.Result, v int32) {
 			// is the vector tile client, modelled by specZigzag32 below), so deltas of
 			// half the int32 range are outside "the domain the code actually uses"
 			// for this decoder: recorded, not demanded.
-			r.Count("renderer-zigzag32.unused-decoder-wrong(|v|>=2^30)", 1)
+			unusedDecoderWrong++
 		} else {
 			viol(r, "renderer-zigzag32:not-inverted", "zigzagDecode(zigzagEncode(%d)) = %d (code %#x)", v, y, u)
 		}
@@ -194,6 +206,7 @@ func zigzag32Sections(tier string) []section {
 			for x := lo; x < lo+1<<chunkBits; x++ {
 				zz32(r, int32(x))
 			}
+			flushZZ32(r)
 			r.Evals, r.Distinct, r.Nontrivial = 1<<chunkBits, 1<<chunkBits, true
 		}})
 	} else {
@@ -202,6 +215,7 @@ func zigzag32Sections(tier string) []section {
 			for x := lo; x < lo+1<<chunkBits; x++ {
 				zz32(r, int32(x))
 			}
+			flushZZ32(r)
 			r.Evals, r.Distinct, r.Nontrivial = 1<<chunkBits, 1<<chunkBits, true
 		}})
 		secs = append(secs, section{name: "renderer-zigzag32:windows", n: 32, run: func(j int64, r *kit.Result) {
@@ -211,6 +225,7 @@ func zigzag32Sections(tier string) []section {
 				zz32(r, -p+d)
 				r.Evals += 2
 			}
+			flushZZ32(r)
 			r.Distinct, r.Nontrivial = r.Evals, true
 		}})
 	}
@@ -1069,6 +1084,7 @@ func main() {
 			"ONS codes are a letter A-Z followed by 8 digits; years 1900..2155 (8-bit offset field)",
 			"renderer deltas fit int32 (tile coordinates at zoom+12 <= 31 bits); command counts < 2^29 (vector tile spec)",
 		},
+		ThoroughDeadline: 25 * time.Minute, // ~1 min on 16 idle cores; the cap only matters on a loaded machine
 		Build: func(tier string) (kit.Space, string) {
 			var secs []section
 			secs = append(secs, typeNamespaceSections()...)
